@@ -67,6 +67,11 @@ def gen_probe(eng, rng, tv):
         if rng.chance(0.6, "range?"):
             a = rng.randint(0, W + 1, "cs")
             op["start"], op["end"] = a, rng.randint(a, W + 2, "ce")
+    # negative indexes count from the end (documented coordinate form); on an empty axis they mean 0
+    if g in ("get_cell", "get_value", "get_row", "get_column", "get_column_cells", "row_get_cell") and rng.chance(0.15, "neg?"):
+        op["neg"] = True
+        if "c" in op:
+            op["c"].pop("form", None)
     op["mut"] = rng.choice(MUTS, "mut")
     op["which"] = rng.randint(0, 50, "which")
     eng.counter += 1
@@ -100,17 +105,40 @@ def run_probe(eng, op, tv):
     before_size = t.size
     eng._restore_xml = etree.tostring(ts.lx(t), encoding="unicode")
     exp = []  # expected (kind, x, y) per returned object, same order as objs
+
+    def neg(i, n):
+        """(argument, index meant): the negative spelling of index i on an axis of length n"""
+        if not op.get("neg"):
+            return i, i
+        if n == 0:
+            return -1, 0
+        if i < n:
+            return i - n, i
+        return i, i
+
+    if op.get("neg"):
+        feats.append("negative_index")
+        op = dict(op)
+        if "c" in op:
+            ax, mx = neg(op["c"]["x"], W)
+            ay, my = neg(op["c"]["y"], H)
+            op["c"] = {"x": mx, "y": my}
+            neg_coord = (ax, ay)
+        if "y" in op:
+            neg_y, op["y"] = neg(op["y"], H)
+        if "x" in op and g != "row_get_cell":
+            neg_x, op["x"] = neg(op["x"], W)
     try:
         if g == "get_cell":
             c = op["c"]
             kw = {"keep_repeated": False} if op.get("keep_repeated") is False else {}
-            objs = [t.get_cell(ts.coord_of(c), **kw)]
+            objs = [t.get_cell(neg_coord if op.get("neg") else ts.coord_of(c), **kw)]
             exp = [("cell", c["x"], c["y"])]
             if c["y"] >= H or c["x"] >= (len(tv.rows[c["y"]]) if c["y"] < H else 0):
                 feats.append("outside")
         elif g == "get_value":
             c = op["c"]
-            v = t.get_value(ts.coord_of(c))
+            v = t.get_value(neg_coord if op.get("neg") else ts.coord_of(c))
             objs = []
             outside = c["y"] >= H or c["x"] >= len(tv.rows[c["y"]])
             if outside:
@@ -118,18 +146,20 @@ def run_probe(eng, op, tv):
                 if v is not None:
                     vs.append(Violation("C08", "outside", name, feats, None, f"get_value outside the populated area returned {v!r}"))
         elif g == "get_row":
-            objs = [t.get_row(op["y"])]
+            objs = [t.get_row(neg_y if op.get("neg") else op["y"])]
             exp = [("row", None, op["y"])]
             if op["y"] >= H:
                 feats.append("outside")
         elif g in ("row_get_cell", "row_traverse", "row_cells", "row_get_cells"):
             y = op["y"]
-            row = t.get_row(y)
+            row = t.get_row(neg_y if op.get("neg") else y)
             rw = len(tv.rows[y]) if y < H else 0
             if y >= H:
                 feats.append("outside")
             if g == "row_get_cell":
-                objs = [row.get_cell(op["x"])]
+                ax, mx = neg(op["x"], rw)
+                op["x"] = mx
+                objs = [row.get_cell(ax)]
                 exp = [("cell", op["x"], y)]
                 if op["x"] >= rw:
                     feats.append("outside")
@@ -175,7 +205,7 @@ def run_probe(eng, op, tv):
                 y0, y1 = (a, b) if a is not None else (0, 10**9)
             exp = [("row", None, y) for y in range(y0, min(y1, H - 1) + 1)]
         elif g == "get_column":
-            objs = [t.get_column(op["x"])]
+            objs = [t.get_column(neg_x if op.get("neg") else op["x"])]
             exp = [("col", op["x"], None)]
             if op["x"] >= W:
                 feats.append("outside")
@@ -203,7 +233,7 @@ def run_probe(eng, op, tv):
                 kw = {"content": r"[0-9s]", "complete": True}
             elif flt == "style":
                 kw = {"style": "ce1", "complete": True}
-            res = t.get_column_cells(op["x"], **kw)
+            res = t.get_column_cells(neg_x if op.get("neg") else op["x"], **kw)
             if flt and len(res) != H:
                 vs.append(Violation("C08", "count", name, feats, None, f"{len(res)} items returned with complete=True, table height {H}"))
                 return vs
